@@ -1203,6 +1203,17 @@ func (e *specEnv) evalCall(n *ast.CallExpr) (sval, error) {
 			ref = mk(SInt, "iptr", ref)
 		}
 		return sval{v: scalar(Select(e.heapOf("ghost:buf", SArray(SInt, SStr)), ref, SStr)), typ: types.Typ[types.String]}, nil
+	case "xh", "ixh": // ghost exhaustion flags: xh(query) / ixh(function value)
+		v, err := arg(0)
+		if err != nil {
+			return sval{}, err
+		}
+		ref := v.v.T
+		if ref.Sort == SIface {
+			ref = mk(SInt, "iptr", ref)
+		}
+		x.needTheory = true
+		return sval{v: scalar(Select(e.heapOf("ghost:"+name, SArray(SInt, SBool)), ref, SBool)), typ: boolT}, nil
 	case "hasMethod": // hasMethod(v, "M"): the dynamic type of v has method M (an interface with just that method is satisfied)
 		v, err := arg(0)
 		if err != nil {
